@@ -53,6 +53,15 @@ def run(ctx):
                 ctx.ok("C12-R2", "apply_gv is reached only on the Some(gv) edge", cm.loc_of(t["span"]))
             else:
                 ctx.fail("C12-R2", PAR, "gv guard", "apply_gv is not under `if let Some(..) = gv`", cm.loc_of(t["span"]))
+            # ... and always there: for every weight and every coefficient of a GV stream the
+            # returned trajectory is apply_gv's (no value test in front of it, no other return)
+            vg = cm.value_guards(b, eb, bb)
+            other = [show(e)[:60] for rbb, e, item in paths.return_exprs(b, eb)
+                     if any(g[0] == "some" and show(g[1]) == "gv" for g in paths.guards(b, rbb, eb)) and "apply_gv(" not in show(e)]
+            if vg or other:
+                ctx.fail("C12-R1", PAR, "conditional GV", "with a GV model, par() does not always return apply_gv's result (%s)" % ("; ".join(["only when " + x for x in vg] + ["also returns " + x for x in other])), cm.loc_of(t["span"]))
+            else:
+                ctx.ok("C12-R1", "with a GV model every return of par() is apply_gv's result, unconditionally", cm.loc_of(t["span"]))
         # R2: taint from gv_weight: the None path's return is untainted
         wl = [l for l in range(1, b.argc + 1) if b.local_name(l) == "gv_weight"]
         if wl:
